@@ -83,6 +83,14 @@ structure Reply where
   stamp : Nat               -- ghost: `recvd.length` when it was sent
 deriving Repr, DecidableEq
 
+/-- what finally happened to a packet that was accepted into a session's send queue -/
+inductive Fate where
+  | sent (ip : IP) (port : Nat)   -- written to the NAT socket
+  | resolveFailed                 -- `PackInPlace` failed: the resolver returned an error (uplink: `putQueuedPacket; continue`)
+  | packFailed                    -- `PackInPlace` failed otherwise (payload too big for the client's path)
+  | notStarted                    -- the session's initialiser failed: cleanup drains the channel (`!sendChClean`)
+deriving Repr, DecidableEq
+
 structure Config where
   cap : Nat                 -- sendChannelCapacity
   byAddr : Bool             -- NAT relay (key = client address) vs session relay (key = csid)
@@ -101,10 +109,14 @@ structure State where
   sent : List Sent                -- ghost
   replies : List Reply            -- ghost
   answers : List (Dom × IP)       -- ghost: answers the resolver has given
+  enq : List (Nat × Pkt)          -- ghost: packets accepted INTO a session's send queue, in order
+  qdrop : List (Nat × Pkt)        -- ghost: packets dropped because the send queue was full (`select … default`)
+  fate : List (Nat × Pkt × Fate)  -- ghost: queued packets that left the uplink (sent or dropped), in order
 
 def State.init : State :=
   { table := fun _ => none, sess := fun _ => none, next := 0, cache := fun _ => Cache.empty,
-    recvd := [], sent := [], replies := [], answers := [] }
+    recvd := [], sent := [], replies := [], answers := [],
+    enq := [], qdrop := [], fate := [] }
 
 inductive Act where
   /-- receive loop: a datagram from `src`, dispatched to `key`; `res` = result of the server unpacker -/
@@ -113,6 +125,8 @@ inductive Act where
   | initFail (sid : Nat)
   /-- uplink: dequeue + start of `PackInPlace` (IP target: pack and send at once) -/
   | take (sid : Nat)
+  /-- uplink: dequeue; `PackInPlace` fails for a reason other than name resolution (e.g. `ErrPayloadTooBig`): dropped -/
+  | packErr (sid : Nat)
   /-- `ResolveIP` returns; on success also `p.cachedDomain = d` -/
   | resolved (sid : Nat) (ans : Option IP)
   /-- `p.cachedDomainIP = ip` -/
@@ -148,7 +162,10 @@ def recv (cfg : Config) (st : State) (key : Key) (src : Addr) (res : Option Pkt)
     | some s, some q =>
       -- existing entry, unpacked: publish the (possibly new) client address, enqueue
       let s := { s with clientAddr := src }
-      { setSess st sid (enqueue cfg s q) with recvd := st.recvd ++ [(sid, src, q)] }
+      { setSess st sid (enqueue cfg s q) with
+          recvd := st.recvd ++ [(sid, src, q)],
+          enq := if s.queue.length < cfg.cap then st.enq ++ [(sid, q)] else st.enq,
+          qdrop := if s.queue.length < cfg.cap then st.qdrop else st.qdrop ++ [(sid, q)] }
     | _, _ => st
   | none =>
     match res with
@@ -157,7 +174,9 @@ def recv (cfg : Config) (st : State) (key : Key) (src : Addr) (res : Option Pkt)
       { st with table := updF st.table key (some sid),
                 sess := updF st.sess sid (some (enqueue cfg (newSess key src) q)),
                 next := sid + 1,
-                recvd := st.recvd ++ [(sid, src, q)] }
+                recvd := st.recvd ++ [(sid, src, q)],
+                enq := if 0 < cfg.cap then st.enq ++ [(sid, q)] else st.enq,
+                qdrop := if 0 < cfg.cap then st.qdrop else st.qdrop ++ [(sid, q)] }
     | none =>
       if cfg.insertFirst then
         let sid := st.next
@@ -177,7 +196,10 @@ def closeSess (st : State) (sid : Nat) (s : Sess) : State :=
 
 def initFail (st : State) (sid : Nat) : State :=
   match st.sess sid with
-  | some s => if !s.started && !s.closed then closeSess st sid { s with queue := [] } else st
+  | some s =>
+    if !s.started && !s.closed then
+      { closeSess st sid { s with queue := [] } with fate := st.fate ++ s.queue.map (fun q => (sid, q, Fate.notStarted)) }
+    else st
   | none => st
 
 def evict (st : State) (sid : Nat) : State :=
@@ -195,16 +217,30 @@ def take (cfg : Config) (st : State) (sid : Nat) : State :=
         match cfg.upstream with
         | some (a, p) =>
           -- ShadowsocksNone / Socks5 / ShadowPacket client packers: the packet (target inside) goes to the proxy
-          { setSess st sid { s with queue := rest } with sent := st.sent ++ [⟨sid, q, a, p⟩] }
+          { setSess st sid { s with queue := rest } with
+              sent := st.sent ++ [⟨sid, q, a, p⟩],
+              fate := st.fate ++ [(sid, q, .sent a p)] }
         | none =>
         match q.target with
         | .ip a p =>
-          { setSess st sid { s with queue := rest } with sent := st.sent ++ [⟨sid, q, a, p⟩] }
+          { setSess st sid { s with queue := rest } with
+              sent := st.sent ++ [⟨sid, q, a, p⟩],
+              fate := st.fate ++ [(sid, q, .sent a p)] }
         | .dom d _ =>
           if (st.cache (cfg.packerOf sid)).dom == some d then
             setSess st sid { s with queue := rest, pc := .storedIP q }
           else
             setSess st sid { s with queue := rest, pc := .resolving q d }
+    else st
+  | none => st
+
+def packErr (st : State) (sid : Nat) : State :=
+  match st.sess sid with
+  | some s =>
+    if s.started && s.pc == .idle then
+      match s.queue with
+      | [] => st
+      | q :: rest => { setSess st sid { s with queue := rest } with fate := st.fate ++ [(sid, q, .packFailed)] }
     else st
   | none => st
 
@@ -217,7 +253,8 @@ def resolved (cfg : Config) (st : State) (sid : Nat) (ans : Option IP) : State :
       { setSess st sid { s with pc := .storedDomain q ip } with
         cache := updF st.cache p { st.cache p with dom := some d },
         answers := st.answers ++ [(d, ip)] }
-    | .resolving _ _, none => setSess st sid { s with pc := .idle }
+    | .resolving q _, none =>
+      { setSess st sid { s with pc := .idle } with fate := st.fate ++ [(sid, q, .resolveFailed)] }
     | _, _ => st
   | none => st
 
@@ -238,7 +275,8 @@ def readSend (cfg : Config) (st : State) (sid : Nat) : State :=
     match s.pc with
     | .storedIP q =>
       { setSess st sid { s with pc := .idle } with
-        sent := st.sent ++ [⟨sid, q, (st.cache (cfg.packerOf sid)).ip, q.target.port⟩] }
+        sent := st.sent ++ [⟨sid, q, (st.cache (cfg.packerOf sid)).ip, q.target.port⟩],
+        fate := st.fate ++ [(sid, q, .sent (st.cache (cfg.packerOf sid)).ip q.target.port)] }
     | _ => st
   | none => st
 
@@ -256,6 +294,7 @@ def step (cfg : Config) (st : State) : Act → State
   | .initOk sid => initOk st sid
   | .initFail sid => initFail st sid
   | .take sid => take cfg st sid
+  | .packErr sid => packErr st sid
   | .resolved sid a => resolved cfg st sid a
   | .storeIP sid => storeIP cfg st sid
   | .readSend sid => readSend cfg st sid
@@ -373,5 +412,22 @@ def progShapeOK (kv : List (String × String)) : Bool :=
 def codeBatchOK : Bool :=
   SSV.Gen.C11.batchProgs.length == 4 &&
   SSV.Gen.C11.batchProgs.all (fun p => progFill p.2 == some .counter && progShapeOK p.2)
+
+
+/-! ### the documented ways a client datagram's journey ends (regenerated `dropSites`) -/
+
+/-- In every uplink loop a dequeued packet is given back in exactly two places: after `PackInPlace` failed
+(`Fate.resolveFailed` / `Fate.packFailed`) and after the write (`Fate.sent`). In every receive loop a received
+datagram is given back only when it was rejected before the enqueue (`garbage_is_noop`), when the send queue is full
+(`qdrop`), by the clean-up of a session that never started (`Fate.notStarted`), or as an unused receive buffer. -/
+def codeDropRulesOK : Bool :=
+  SSV.Gen.C11.dropSites.length == 8 &&
+  ["nat-uplink-generic", "nat-uplink-mmsg", "session-uplink-generic", "session-uplink-mmsg"].all
+    (fun l => SSV.Gen.C11.dropSites.lookup l == some ["pack-error", "after-send"]) &&
+  ["nat-recv-generic", "nat-recv-mmsg", "session-recv-generic", "session-recv-mmsg"].all
+    (fun l => match SSV.Gen.C11.dropSites.lookup l with
+      | some cls => cls.count "queue-full" == 1 && cls.count "not-started" == 1 &&
+          cls.all (fun c => ["rejected", "queue-full", "not-started", "unused-buffer"].contains c)
+      | none => false)
 
 end SSV.Relay
